@@ -87,6 +87,27 @@ def main():
             nd[tid] = nd[i + 1]
             meta[tid] = dict(r, moved=True)
             jobs.append({'tid': tid, 'deck': nd[i + 1], 'opts': [], 'phi': adeck.PHIS[i % len(adeck.PHIS)]})
+    # another unit of length (every fifth card; all in thorough): the text scaled by 1e-3 / 400, TLC keeps the exact card
+    base = base + len(recs)
+    for i, r in enumerate(recs):
+        if thorough or i % 5 == 2:
+            res = adeck.unit_change(nd[i + 1], [0.001, 400.0][(i // 5) % 2])
+            if res is None:
+                continue
+            tid = base + i + 1
+            nd[tid] = nd[i + 1]
+            meta[tid] = dict(r, moved=True, unit=True)
+            jobs.append({'tid': tid, 'deck': nd[i + 1], 'opts': [], 'text': adeck.concretise(res[0]), 'real_points': res[1]})
+    # a GQ equation multiplied by a tiny / a large positive constant (every second GQ card): the same surface
+    base = base + len(recs)
+    for i, r in enumerate(recs):
+        if r['card']['k'] == 'gq' and (thorough or i % 2 == 0):
+            tid = base + i + 1
+            d = adeck.normalise(surf_deck(dict(r['card'], coefscale=[1e-14, 1e9][(i // 2) % 2])))
+            d['pts'] = pts
+            nd[tid] = d
+            meta[tid] = dict(r, coefscale=True)
+            jobs.append({'tid': tid, 'deck': d, 'opts': []})
     records = [x for x in conv.run_batch(deckrun.run_deck, jobs, chunksize=16)]
     core.lap('converter x%d' % len(jobs))
     good = []
@@ -115,11 +136,16 @@ def main():
                     chk.machinery('baddeck for card %r' % (card,))
                 continue
             err = rec['err']
+            if meta[tid].get('unit') and kind == 'crash' and err and err['diag']:
+                continue        # another unit of length: a card refused with a diagnostic (an absolute tolerance on tiny
+                #                 vectors) is not a converted surface; what IS converted must be right
             nparam = len(card['p'])
             sig = {'clause': kind, 'mnemonic': card['k'], 'nparam': nparam,
                    'errtype': err['type'] if err else None, 'where': err['where'] if err else None,
                    'onesheet': meta[tid]['onesheet'], 'moved': bool(meta[tid].get('moved')),
                    'sq_g_positive': bool(card['k'] == 'sq' and _sq_centre_value(card) > 0),
+                   'sq_centre_value_zero': bool(card['k'] == 'sq' and _sq_centre_value(card) == 0),
+                   'unit_changed': bool(meta[tid].get('unit')),
                    'first_point_on_axis': bool(card['k'] in 'xyz' and nparam == 4 and card['p'][1] == 0)}
             chk.violation(sig, {'text': rec['text'], 'card': card, 'error': err, 'deck': nd[tid],
                                 'clauses': 'owner,witness',
